@@ -261,6 +261,8 @@ PROPS["C03"] = {
         K("expand_keys key-block order (RFC 5246 6.3)", "c03_expand_keys_block_order", "quick", "bounded", ["expand_keys", "prf_sha256"],
           "key_block = PRF(master, \"key expansion\", server_random || client_random); client key | server key | client IV | server IV cut in that order",
           bound="4-byte master secret, 2-byte randoms (symbolic); hmac substitute", module=DM, timeout=900),
+        K("DtlsRecord decode∘encode (4 B payload)", "c03_record_roundtrip_4", "quick", "bounded", ["DtlsRecord::encode", "DtlsRecord::decode"],
+          "decode(encode(r)) == r for every content type, version, epoch, 48-bit sequence number and payload; buffer consumed", bound="payload 4 bytes; length octets asserted then re-written as literals", module=RCM, timeout=600),
         K("canary: gate rejects every epoch-0 record", "canary_gate_rejects_all_epoch0", "quick", "canary", ["DtlsInner::try_decrypt_record"],
           "false claim, must FAIL", expect="fail", module=DM),
     ],
